@@ -351,12 +351,13 @@ class Run:
         self.directives = boundscheck_setting()
         self.while_true_cut = while_true_cut
         self.called = []
-        self.split = split
+        self.split = split if isinstance(split, bool) else set(split or ())
         self.domain = domain
         self.hyps = [h for h in (hyps or []) if h is not True]
         self._solver = None
         self.feas_timeout_ms = feas_timeout_ms
         self._names_cache = {}
+        self._range_cache = {}
         self.stats = {"stmts": 0, "merges": 0}
 
     # ------------------------------------------------------------------ helpers
@@ -608,6 +609,8 @@ class Run:
 
     def find_split(self, names, frame):
         for nm in names:
+            if self.split is not True and nm not in self.split:
+                continue
             v = frame.env.get(nm)
             if isinstance(v, z3.ArithRef):
                 lv = self.leaves_of(v)
@@ -924,8 +927,57 @@ class Run:
             return ("fancy", list(v))
         return v
 
+    def int_range(self, t, depth=0):
+        """syntactic interval of an integer term: (lo, hi) or None"""
+        if isinstance(t, bool):
+            return (int(t), int(t))
+        if isinstance(t, int):
+            return (t, t)
+        if not isinstance(t, z3.ExprRef):
+            return None
+        key = t.get_id()
+        c = self._range_cache.get(key)
+        if c is not None:
+            return c if c != 0 else None
+        r = None
+        if z3.is_int_value(t):
+            r = (t.as_long(), t.as_long())
+        elif z3.is_app(t) and depth < 60:
+            k = t.decl().kind()
+            ch = t.children()
+            if k == z3.Z3_OP_ITE:
+                a, b = self.int_range(ch[1], depth + 1), self.int_range(ch[2], depth + 1)
+                if a and b:
+                    r = (min(a[0], b[0]), max(a[1], b[1]))
+            elif k == z3.Z3_OP_ADD:
+                rs = [self.int_range(x, depth + 1) for x in ch]
+                if all(rs):
+                    r = (sum(x[0] for x in rs), sum(x[1] for x in rs))
+            elif k == z3.Z3_OP_SUB and len(ch) == 2:
+                a, b = self.int_range(ch[0], depth + 1), self.int_range(ch[1], depth + 1)
+                if a and b:
+                    r = (a[0] - b[1], a[1] - b[0])
+            elif k == z3.Z3_OP_MUL and len(ch) == 2:
+                a, b = self.int_range(ch[0], depth + 1), self.int_range(ch[1], depth + 1)
+                if a and b:
+                    ps = [a[0] * b[0], a[0] * b[1], a[1] * b[0], a[1] * b[1]]
+                    r = (min(ps), max(ps))
+            elif k == z3.Z3_OP_UMINUS:
+                a = self.int_range(ch[0], depth + 1)
+                if a:
+                    r = (-a[1], -a[0])
+        self._range_cache[key] = r if r is not None else 0
+        return r
+
     def axis_check(self, i, dim, node, g):
         """bounds event for index i on an axis of length dim; returns nothing"""
+        if i is UNDEF:
+            self.event("UnboundLocalError", True, node, g)
+            return
+        if is_sym(i) and not isinstance(i, NF):
+            r = self.int_range(i)
+            if r is not None and r[0] >= 0 and r[1] < dim:
+                return
         if not is_sym(i):
             if i < 0 and self.directives["wraparound"]:
                 return
@@ -1250,8 +1302,29 @@ class Run:
         if op == "-":
             return sub(a, b)
         if op == "*":
+            if isinstance(a, z3.ArithRef) and isinstance(b, z3.ArithRef):
+                # keep arithmetic linear: case-split a small-range integer factor
+                for p_, q_ in ((b, a), (a, b)):
+                    r = self.int_range(p_) if p_.is_int() else None
+                    if r is not None and r[1] - r[0] <= 16:
+                        out = mul(q_, r[1])
+                        for v in range(r[1] - 1, r[0] - 1, -1):
+                            out = ite(eq(p_, v), mul(q_, v), out)
+                        return out
             return mul(a, b)
         if op == "/":
+            if isinstance(b, z3.ArithRef) and b.is_int() and is_sym(a) is not None:
+                r = self.int_range(b)
+                if r is not None and r[1] - r[0] <= 64 and not isinstance(a, NF):
+                    if not self.directives["cdivision"]:
+                        self.event("ZeroDivisionError", eq(b, 0), node, g)
+                    vals = [v for v in range(r[0], r[1] + 1) if v != 0]
+                    if not vals:
+                        return UNDEF
+                    out = div(a, vals[-1])
+                    for v in reversed(vals[:-1]):
+                        out = ite(eq(b, v), div(a, v), out)
+                    return out
             bz = eq(b.val if isinstance(b, NF) else b, 0)
             if isinstance(b, NF):
                 bz = and_(not_(b.nan), bz)
